@@ -3,7 +3,7 @@
 import json, os
 from vp import val, coqrun, rustrun
 from vp.val import cN, cZ, cbool, clist, cpair, cbytes
-from gen import c17wire, c17enum
+from gen import c17wire, c17enum, c17typed
 
 # ---------------------------------------------------------------- constants
 ORIGIN, AS_PATH, NEXTHOP, MED, LOCAL_PREF, ATOMIC, AGGREGATOR, COMMUNITY, ORIGINATOR_ID, CLUSTER_LIST = range(1, 11)
@@ -857,6 +857,7 @@ class Prop:
         if c['k'] == 4: return [4, c['opts'], c['msg']]
         if c['k'] == 5: return [5, c['fam'], c['nlri'], expand(c['attrs']), c['id']]
         if c['k'] == 8: return [8, c['fam'], expand(c['x'])]
+        if c['k'] == 9: return [9, c['w'], expand(c['msg'])]
         if c['k'] == 6: return [6, c['api']]
         if c['k'] == 7: return [7, evpn_to_valx(c['e'], out=False)]
         raise ValueError(c)
@@ -868,6 +869,7 @@ class Prop:
         if c['k'] == 3: return 'run_nlri_case %s' % nlri_to_coq(c['n'])
         if c['k'] == 4: return '(VL [])'     # the wide part has no model: judged by the oracle only
         if c['k'] == 8: return xnlri_to_coq(c) if xnlri_modelled(c) else '(VL [])'
+        if c['k'] == 9: return '(VL [])'
         if c['k'] == 6: return 'run_api_evpn_case %s' % api_evpn_to_coq(c['api'])
         if c['k'] == 7: return 'run_evpn_case %s' % evpn_to_coq(c['e'])
         if c['k'] == 5:
@@ -877,7 +879,7 @@ class Prop:
 
     # ---- generation
     def gen_cases(self, rng, tier):
-        cases = c17enum.enum_all()      # the classes enumerated on every run come first
+        cases = c17enum.enum_all() + c17typed.enum_typed()      # the classes enumerated on every run come first
         nw, na = (900, 1300) if tier == 'quick' else (9000, 13000)
         for code in WIRE_CODES + WIRE_SPECIAL + UNKNOWN_CODES[:6]:
             for _ in range(6):
@@ -895,6 +897,8 @@ class Prop:
                 cases.append(gen_api_case(rng, v))
         for _ in range(na):
             cases.append(gen_api_case(rng))
+        for _ in range(400 if tier == 'quick' else 4000):
+            cases.append(c17typed.gen_typed_case(rng))
         nn = 500 if tier == 'quick' else 5000
         for _ in range(nn):
             cases.append(gen_api_nlri_case(rng))
@@ -942,7 +946,7 @@ class Prop:
         return coqrun.eval_terms('C17', pre, [self.case_to_coq(c) for c in cases])
 
     def canon(self, case, obs):
-        if case['k'] == 4 or (case['k'] == 8 and not xnlri_modelled(case)):
+        if case['k'] in (4, 9) or (case['k'] == 8 and not xnlri_modelled(case)):
             return []       # not modelled (differential testing of the real round trip only)
         if case['k'] == 8 and len(obs) == 6:
             return [obs[0], obs[2], obs[3], obs[4], obs[5]]     # accepted, wire bytes, decodes back, relisted, API form listed
@@ -1025,6 +1029,8 @@ class Prop:
             return None
         if c['k'] == 8:
             return oracle_xnlri(c, obs)
+        if c['k'] == 9:
+            return c17typed.oracle_typed(c, obs)
         if c['k'] == 6:
             if obs[0] == 0:
                 return None
@@ -1091,7 +1097,7 @@ class Prop:
     def nontrivial_key(self, c, obs):
         if obs == [-1] or not obs:
             return None
-        if c['k'] in (0, 1, 2, 5, 6, 8) and obs[0] == 1:
+        if c['k'] in (0, 1, 2, 5, 6, 8, 9) and obs[0] == 1:
             return json.dumps(self.case_to_val(c))
         if c['k'] == 7 and not wf_evpn(evpn_to_valx(c['e'])):
             return json.dumps(self.case_to_val(c))
@@ -1124,6 +1130,8 @@ class Prop:
             return ['evpn', 'evpn:type%d' % c['e'][0]]
         if c['k'] == 8:
             return ['xnlri', 'xnlri:%s:%s' % ({10: 'flowspec', 11: 'flowspec_vpn', 12: 'srpolicy', 13: 'rtc', 14: 'mup_isd', 15: 'mup_dsd', 16: 'mup_t1st', 17: 'mup_t2st'}.get(c['x'][0]), 'accepted' if obs and obs[0] == 1 else 'refused')]
+        if c['k'] == 9:
+            return ['typed', 'typed:%s:%s' % ('prefix_sid' if c['w'] == 0 else 'tunnel_encap', 'accepted' if obs and obs[0] == 1 else 'refused')]
         if c['k'] == 5:
             return ['local_path', 'local_path:%s:attrs_%d' % ('accepted' if obs and obs[0] == 1 else 'rejected', min(len(c['attrs']), 4))]
         if c['k'] == 4:
